@@ -15,7 +15,7 @@ SPEC = dict(
           "non-trivial+distinct = distinct (len before, len after, zero-padded?, pattern) transitions"),
     assumptions=["R3 (ref.next_build) is the README's lexical-id successor; ids that are all 9s are the documented "
                  "maximum and are only required not to be 'bumped' to a smaller/equal value"],
-    required=["single_steps", "chain_steps", "expansion:4->5", "expansion:5->6"],
+    required=["single_steps", "chain_steps", "expansion:4->5", "expansion:5->6", "expansion:6->7"],
     anchors=[("v2version", "_incr_numeric"), ("v2version", "parse_field_values_to_vinfo"), ("v2patterns", "_fmt_bld")],
     exhaustive={"quick": True, "thorough": True},
     exhaustive_note="start ids of 1..4 (quick) / 1..5 (thorough) digits are enumerated completely; chains and 6-7 digit "
@@ -39,6 +39,11 @@ def cases(ctx):
     for _ in range(ctx.size(640, 16000)):
         w = R.choice([6, 7])
         yield {"kind": "step", "start": str(R.randint(0, 10 ** w - 1)).zfill(w), "pat": R.randrange(len(PATTERNS))}
+    # fixed chains that cross every digit-length expansion, whatever the seed
+    fixed = ["1", "0001", "0990", "1990", "19990", "199990", "8990", "98990", "00001", "09"]
+    for k, b in enumerate(fixed):
+        if ctx.mine(k):
+            yield {"kind": "chain", "start": b, "steps": 60, "pat": k % len(PATTERNS), "bld": False}
     n_chains = ctx.size(16, 64)
     for _ in range(n_chains):
         start = R.choice(["1", "0001", "0999", "1000", "999", "09", "8990", "19990", "98", "00001", "1990", "0000",
